@@ -486,3 +486,236 @@ def _nbi(ctx):
         ctx.requires.append(conv_pre(ctx.tid, dst, r))
         ens.append("(%s == %s)" % (R.lane(i), conv_expr(ctx.tid, dst, r)))
     ctx.ensures += conj(ens)
+
+
+# ---- C05: data movement = pure lane permutation with the documented map -------------------------------------------------------------
+import re as _re
+
+
+def _targ_int(fn, k=0):
+    m = _re.match(r"^(\d+)", fn.sig.targs[k]) if len(fn.sig.targs) > k else None
+    if not m:
+        raise Unsupported("no integral template argument")
+    return int(m.group(1))
+
+
+def _const_pack(fn):
+    """values of a batch_constant<...> parameter (an empty class in the ABI): parsed from the demangled signature"""
+    for p in fn.ptypes:
+        if p.kind == "empty" and p.core.startswith("xsimd::batch_constant<"):
+            inner = p.core[len("xsimd::batch_constant<"):-1]
+            parts = [x.strip() for x in inner.split(",")]
+            vals = []
+            for x in parts:
+                m = _re.match(r"^\(?(?:[a-z ]+\))?(-?\d+)[ul]*$", x)
+                if m:
+                    vals.append(int(m.group(1)))
+            return vals
+    raise Unsupported("no batch_constant parameter")
+
+
+def _permute(fmap):
+    """fmap(ctx, i) -> C expression (bit pattern) of output lane i"""
+    def build(ctx):
+        R = ctx.ret = bind_ret(ctx, "B")
+        ctx.ensures += conj(["(%s == %s)" % (R.lane(i), fmap(ctx, i)) for i in range(ctx.n)])
+    return build
+
+
+def _zip(hi):
+    def f(ctx, i):
+        x, y = ctx.args[0], ctx.args[1]
+        src = i // 2 + (ctx.n // 2 if hi else 0)
+        return (x if i % 2 == 0 else y).lane(src)
+    return f
+
+
+row("zip_lo", "BB", "B", prop="C05")(_permute(_zip(False)))
+row("zip_hi", "BB", "B", prop="C05")(_permute(_zip(True)))
+
+
+def _pick(arg, idx_expr, n):
+    """lane selected by a run-time index expression (a chain of conditionals over the constant lane accessors)"""
+    e = arg.lane(n - 1)
+    for k in range(n - 2, -1, -1):
+        e = "((%s) == %d ? %s : %s)" % (idx_expr, k, arg.lane(k), e)
+    return e
+
+
+@row("swizzle", "BB", "B", prop="C05")
+def _swizzle_dyn(ctx):
+    x, idx = ctx.args
+    if TYPES[idx.tid][2] != ctx.w:
+        raise Unsupported("index batch of different width")
+    R = ctx.ret = bind_ret(ctx, "B")
+    for i in range(ctx.n):
+        ctx.requires.append("%s < %d" % (idx.lane(i), ctx.n))
+    ctx.ensures += conj(["(%s == %s)" % (R.lane(i), _pick(x, idx.lane(i), ctx.n)) for i in range(ctx.n)], 2)
+
+
+@row("swizzle", "B", "B", prop="C05")
+def _swizzle_const(ctx):
+    pack = _const_pack(ctx.fn)
+    if len(pack) < ctx.n:
+        raise Unsupported("constant pack not recognised")
+    pack = pack[-ctx.n:]
+    x = ctx.args[0]
+    R = ctx.ret = bind_ret(ctx, "B")
+    if any(v >= ctx.n for v in pack):
+        raise Unsupported("index out of range in pack")
+    ctx.ensures += conj(["(%s == %s)" % (R.lane(i), x.lane(pack[i])) for i in range(ctx.n)])
+
+
+@row("shuffle", "BB", "B", prop="C05")
+def _shuffle_const(ctx):
+    pack = _const_pack(ctx.fn)[-ctx.n:]
+    x, y = ctx.args
+    R = ctx.ret = bind_ret(ctx, "B")
+    if len(pack) < ctx.n or any(v >= 2 * ctx.n for v in pack):
+        raise Unsupported("constant pack not recognised")
+    ctx.ensures += conj(["(%s == %s)" % (R.lane(i), x.lane(pack[i]) if pack[i] < ctx.n else y.lane(pack[i] - ctx.n)) for i in range(ctx.n)])
+
+
+def _rot(sign):
+    def build(ctx):
+        N = _targ_int(ctx.fn)
+        x = ctx.args[0]
+        R = ctx.ret = bind_ret(ctx, "B")
+        ctx.ensures += conj(["(%s == %s)" % (R.lane(i), x.lane((i + sign * N) % ctx.n)) for i in range(ctx.n)])
+    return build
+
+
+row("rotate_left", "B", "B", prop="C05")(_rot(+1))
+row("rotate_right", "B", "B", prop="C05")(_rot(-1))
+
+
+def _slide(left):
+    def build(ctx):
+        N = _targ_int(ctx.fn)     # bytes
+        x = ctx.args[0]
+        R = ctx.ret = bind_ret(ctx, "B")
+        total = ctx.n * ctx.w // 8
+        ens = []
+        for j in range(total):   # byte-wise: shift by N bytes with zero fill
+            src = j - N if left else j + N
+            rb = R.val.bits(j, 1)
+            ens.append("(%s == %s)" % (rb, x.val.bits(src, 1) if 0 <= src < total else "0"))
+        ctx.ensures += conj(ens)
+    return build
+
+
+row("slide_left", "B", "B", prop="C05")(_slide(True))
+row("slide_right", "B", "B", prop="C05")(_slide(False))
+
+
+@row("insert", "BS", "B", prop="C05")
+def _insert(ctx):
+    I = None
+    for p in ctx.fn.ptypes:
+        m = _re.search(r"index<(\d+)", p.core) or _re.search(r"integral_constant<unsigned long, (\d+)", p.core)
+        if m:
+            I = int(m.group(1))
+    if I is None:
+        raise Unsupported("insert position not found")
+    if I >= ctx.n:
+        raise Unsupported("insert position outside the batch")
+    x, v = ctx.args
+    R = ctx.ret = bind_ret(ctx, "B")
+    ctx.ensures += conj(["(%s == %s)" % (R.lane(i), v.lane(i) if i == I else x.lane(i)) for i in range(ctx.n)])
+
+
+@row("extract_pair", "BBS", "B", prop="C05")
+def _extract_pair(ctx):
+    x, y, k = ctx.args
+    R = ctx.ret = bind_ret(ctx, "B")
+    n = ctx.n
+    ctx.requires.append("%s < %d" % (k.scalar, n))     # the library asserts i < size
+    ens = []
+    for i in range(n):
+        # window [y[k..n-1], x[0..k-1]]
+        e = x.lane(i)  # k == n : all from x? (window starts past y)
+        cases = []
+        for kk in range(n):
+            src = (y.lane(i + kk) if i + kk < n else x.lane(i + kk - n))
+            cases.append((kk, src))
+        expr = cases[-1][1]
+        for kk, src in reversed(cases[:-1]):
+            expr = "(%s == %d ? %s : %s)" % (k.scalar, kk, src, expr)
+        ens.append("(%s == %s)" % (R.lane(i), expr))
+    ctx.ensures += conj(ens, 2)
+
+
+def _compress_expand(kind):
+    def build(ctx):
+        x, m = ctx.args
+        R = ctx.ret = bind_ret(ctx, "B")
+        ctx.requires += conj(m.wf())
+        n = ctx.n
+        cnt = ["0"]
+        for i in range(n):
+            cnt.append("(%s + (%s ? 1 : 0))" % (cnt[-1], m.truth(i)))   # number of true lanes before lane i+1
+        ens = []
+        if kind == "compress":
+            # out[k] = x[i] for the k-th true lane i (order preserved); remaining lanes zero
+            for k in range(n):
+                e = "0"
+                for i in range(n - 1, -1, -1):
+                    e = "((%s && %s == %d) ? %s : %s)" % (m.truth(i), cnt[i], k, x.lane(i), e)
+                ens.append("(%s == %s)" % (R.lane(k), e))
+        else:
+            # out[i] = mask[i] ? x[number of true lanes before i] : 0
+            for i in range(n):
+                ens.append("(%s == (%s ? %s : 0))" % (R.lane(i), m.truth(i), _pick(x, cnt[i], n)))
+        ctx.ensures += conj(ens, 1)
+    return build
+
+
+row("compress", "BM", "B", prop="C05")(_compress_expand("compress"))
+row("expand", "BM", "B", prop="C05")(_compress_expand("expand"))
+
+
+# ---- C09: reductions use every lane exactly once ---------------------------------------------------------------------------------------
+@row("reduce_add", "B", "S", types=INT_TYPES, prop="C09")
+def _reduce_add_int(ctx):
+    x = ctx.args[0]
+    R = ctx.ret = Arg("S", ctx.tid, None, scalar="__CPROVER_return_value")
+    C = "u32" if ctx.w <= 32 else "u64"
+    ctx.ensures.append("(%s == (%s)(%s))" % (R.lane(0), UW[ctx.w], " + ".join("(%s)%s" % (C, x.lane(i)) for i in range(ctx.n))))
+
+
+@row("reduce_add", "B", "S", types=FLOAT_TYPES, prop="C09")
+def _reduce_add_float(ctx):
+    # exactness clause of the statement: when every partial sum is representable (here: integer lanes of magnitude < 2^10), the result
+    # is the exact sum whatever the association order -- a skipped or doubled lane changes it
+    x = ctx.args[0]
+    R = ctx.ret = Arg("S", ctx.tid, None, scalar="__CPROVER_return_value")
+    W = ctx.w
+    F = lambda i: "U2F%d(%s)" % (W, x.lane(i))
+    for i in range(ctx.n):
+        ctx.requires.append("(%s >= -1024.0 && %s <= 1024.0 && %s == (f%d)(s32)%s)" % (F(i), F(i), F(i), W, F(i)))
+    ctx.ensures.append("(__CPROVER_return_value == (f%d)(%s))" % (W, " + ".join("(s32)%s" % F(i) for i in range(ctx.n))))
+    ctx.uses_float = True
+
+
+def _reduce_minmax(kind):
+    def build(ctx):
+        x = ctx.args[0]
+        R = ctx.ret = Arg("S", ctx.tid, None, scalar="__CPROVER_return_value")
+        r = R.lane(0)
+        if ctx.isfloat:
+            for i in range(ctx.n):
+                ctx.requires.append("!%s" % ctx.spec("isnan", x.lane(i)))
+            cmp = "le" if kind == "max" else "ge"
+            ctx.ensures.append("(%s)" % " || ".join("%s == %s" % (r, x.lane(i)) for i in range(ctx.n)))
+            ctx.ensures += conj([ctx.spec(cmp, x.lane(i), r) for i in range(ctx.n)])
+        else:
+            cmp = "le" if kind == "max" else "ge"
+            ctx.ensures.append("(%s)" % " || ".join("%s == %s" % (r, x.lane(i)) for i in range(ctx.n)))
+            ctx.ensures += conj([ctx.spec(cmp, x.lane(i), r) for i in range(ctx.n)])
+    return build
+
+
+row("reduce_max", "B", "S", prop="C09")(_reduce_minmax("max"))
+row("reduce_min", "B", "S", prop="C09")(_reduce_minmax("min"))
+# hadd is the generic integer reduction kernel reduce_add forwards to
+ROWS.setdefault(("hadd", "B"), []).extend(ROWS[("reduce_add", "B")])
